@@ -105,7 +105,9 @@ func (g *SimRelayGen) AllocateConn(c turn.AllocateConnConfig) (net.Conn, error) 
 	if err != nil {
 		return nil, err
 	}
-	g.W.Mon.OutboundDialed(akey(la.IP, la.Port), conn)
+	if !g.W.K.Free {
+		g.W.Mon.OutboundDialed(akey(la.IP, la.Port), conn)
+	}
 	return conn, nil
 }
 
@@ -392,8 +394,7 @@ func (c *RawClient) ensureConn() {
 				c.conn = nil
 				return
 			}
-			conn.Scripted = true
-			conn.OnData = func(_ *TCPConn, b []byte) { c.onStream(b) }
+			conn.SetScripted(func(_ *TCPConn, b []byte) { c.onStream(b) }, nil)
 			c.conn = conn
 			c.connUp = true
 			for _, b := range c.queue {
@@ -639,7 +640,9 @@ func (w *SrvWorld) afterServerClose() {
 				Detail: "socket " + s.Kind + " " + s.Role + " " + s.Addr + " remote " + s.Remote + " is still open 5 s after Server.Close returned"})
 		}
 	}
-	w.checkStreams()
+	if !w.K.Free {
+		w.checkStreams()
+	}
 	for _, rc := range w.Real {
 		rs := rc.sock
 		w.lib("close-client", func() { _ = rs.Close() })
@@ -650,17 +653,29 @@ func (w *SrvWorld) afterServerClose() {
 			pl := p.ln
 			w.lib("close-peer", func() { _ = pl.Close() })
 		}
+		p.mu.Lock()
+		var open []*TCPConn
 		for _, pc := range p.Conns {
 			if !pc.Closed {
-				_ = pc.Conn.closeHow(false)
+				open = append(open, pc.Conn)
 			}
+		}
+		p.mu.Unlock()
+		for _, c := range open {
+			_ = c.closeHow(false)
 		}
 	}
 	for _, c := range w.Clients {
+		c.mu.Lock()
+		var open []*TCPConn
 		for _, d := range c.Data {
 			if d.Up && !d.Closed {
-				_ = d.Conn.closeHow(false)
+				open = append(open, d.Conn)
 			}
+		}
+		c.mu.Unlock()
+		for _, d := range open {
+			_ = d.closeHow(false)
 		}
 	}
 	for _, c := range w.Clients {
@@ -669,8 +684,10 @@ func (w *SrvWorld) afterServerClose() {
 			cs := c.sock
 			w.lib("close-client", func() { _ = cs.Close() })
 		}
-		if c.conn != nil && c.connUp {
-			cc := c.conn
+		c.mu.Lock()
+		cc, up := c.conn, c.connUp
+		c.mu.Unlock()
+		if cc != nil && up {
 			w.lib("close-client", func() { _ = cc.Close() })
 		}
 	}
